@@ -82,9 +82,29 @@ def regenerate_reducer(coq_dir):
     return True, changed, "ok"
 
 
+def regenerate_termsrc(coq_dir):
+    """Gen/TermSrc.v from /repo/src/term.rs (lib/trans_term.py): the accessors and predicates of `impl Term`.
+    Same policy as for the reducer: outside the translated idiom the last good model is restored and the tie of
+    C18/C19 rests on the correspondence run alone."""
+    import trans_term
+    dst = os.path.join(coq_dir, "theories", "Gen", "TermSrc.v")
+    base = os.path.join(coq_dir, "baseline", "TermSrc.v")
+    try:
+        text = trans_term.translate(open(os.path.join(SRC, "term.rs"), encoding="utf-8").read())
+    except trans_term.TransError as e:
+        write_if_changed(dst, open(base, encoding="utf-8").read())
+        return False, False, "src/term.rs is outside the translated idiom: %s" % e
+    except Exception as e:  # noqa
+        write_if_changed(dst, open(base, encoding="utf-8").read())
+        return False, False, "translator crashed on src/term.rs: %r" % e
+    changed = write_if_changed(dst, text)
+    return True, changed, "ok"
+
+
 if __name__ == "__main__":
     import sys
     root = os.path.dirname(os.path.dirname(os.path.abspath(__file__)))
     print(regenerate_reducer(os.path.join(root, "coq")))
+    print(regenerate_termsrc(os.path.join(root, "coq")))
     print(regenerate(sys.argv[1] if len(sys.argv) > 1 else os.path.join(root, ".cache/cargo-target/release"),
                      os.path.join(root, "coq"), os.path.join(root, ".cache")))
